@@ -173,7 +173,8 @@ class AdjustBrightnessStyleTransformation(StyleTransformation):
 
         # If a foreground color is given without a background color.
         no_background = not attrs.bgcolor or attrs.bgcolor == "default"
-        has_fgcolor = attrs.color and attrs.color != "ansidefault"
+        # "default" (like "") means: no color set. It has no RGB value.
+        has_fgcolor = attrs.color and attrs.color not in ("ansidefault", "default")
 
         if has_fgcolor and no_background:
             # Calculate new RGB values.
